@@ -116,7 +116,7 @@ func init() {
 		rule:   "cases = (a) every scenario of {CopyFile, MoveFile} x 9 source contents (0..1 MiB, one with an all-zero middle copy block; a tenth of 5 MiB + 3 bytes is drawn by the seeded part only) x {regular, missing, via symlink} x 19 destination layouts (missing, shorter, longer, same length with other bytes, same path, ./ and dir/../ spellings, symlink to source, hard link of source, directory, parent missing, parent is a file, other mount missing/existing, dangling symlink, symlink to another file, symlink on the other mount to the source, the source's own name or a fresh name reached through a symlink to its directory), fault-free; (b) for each scenario every single-fault placement: each call of its recorded trace x each errno applicable to that primitive (writes additionally x {0, half, all-but-one} bytes written before the error) ; (c) two-call histories in one process: every single-fault placement in an earlier CopyFile / MoveFile (4 sizes x 6 destination layouts) followed by a fault-free CopyFile or cross-mount MoveFile - (a), (b) and (c) are enumerated completely; (d) seeded histories of up to three calls (earlier calls in their own directories, three in four failed by one fault) whose last call carries a plan of up to three faults over a random scenario; every call of a history is held to the oracle, fault-free histories are also run by the unrewritten package on the real file system in a child process. distinct = distinct hash of (scenario, call trace with faults, result); every case is non-trivial (it runs the operation)",
 		assume: []string{"the simulated file system is faithful where the property looks: every fault-free scenario is also executed by the unrewritten package on the real file system (second mount: /dev/shm) and must agree in error class and resulting contents", "errors surfacing only at Close and power loss are outside the property's fault list"},
 	}
-	worlds["fsworld"].probes = map[string][]string{"*": {"traces_validated_against_real_fs", "fs.rename:EXDEV", "fs.write:ENOSPC", "fs.read:EIO", "fs.unlink:EPERM", "fs.truncate:EIO"}}
+	worlds["fsworld"].probes = map[string][]string{"*": {"traces_validated_against_real_fs", "fs.rename:EXDEV", "fs.write:ENOSPC", "fs.read:EIO", "fs.unlink:EPERM", "fs.truncate:EIO", "fs.fstat:EIO"}}
 	propWorld["C18"] = "fsworld"
 	worlds["httpworld"].probes = map[string][]string{
 		"C05": {"nested_request", "panic_unwinds_through_servehttp", "route_with_more_params_added_after_store_pooled", "pool.miss_with_items", "pool.stale_pick"},
